@@ -90,7 +90,8 @@ def check(mdir, props, tier="quick"):
         shutil.rmtree(os.path.join(d, ".git"), ignore_errors=True)
         for p in props:
             env = dict(os.environ, VERIF_REPO=d)
-            pr = subprocess.run(["python3", "/verif/check.py", p, "--tier", tier], cwd="/verif", env=env, stdout=subprocess.PIPE, stderr=subprocess.STDOUT, text=True, timeout=3600)
+            V = os.environ.get("MUT_VERIF", "/verif")   # a private copy of /verif keeps coq/gen of concurrent runs apart
+            pr = subprocess.run(["python3", V + "/check.py", p, "--tier", tier], cwd=V, env=env, stdout=subprocess.PIPE, stderr=subprocess.STDOUT, text=True, timeout=3600)
             lines = [l for l in pr.stdout.splitlines() if l.startswith(("VIOLATION", "KNOWN-FINDING"))]
             first = None
             for l in lines:
